@@ -128,9 +128,12 @@ extern "C" void h_fail() {
 
 // ------------------------------------------------------------------ documented-order mode (exact small-integer arithmetic)
 static bool g_unsupported;                  // an operation outside the integer fragment was requested (assumed away)
-static u64 mag(i64 v) { return v < 0 ? (u64)(0 - v) : (u64)v; }
-static bool arith(unsigned op, i64 a, i64 b, i64 &out) {   // false = no value
+// 32-bit arithmetic (cheap to bit-blast); anything that could leave the range is flagged and assumed away
+typedef int i32;
+static unsigned mag(i32 v) { return v < 0 ? (unsigned)(0 - v) : (unsigned)v; }
+static bool arith(unsigned op, i32 a, i32 b, i32 &out) {   // false = no value
     bool ta = a > 0, tb = b > 0;
+    if (mag(a) > 0xFFFFFu || mag(b) > 0xFFFFFu) g_unsupported = true;
     switch (op) {
         case 1: out = (ta || tb); return true;
         case 2: out = (ta && tb); return true;
@@ -144,29 +147,29 @@ static bool arith(unsigned op, i64 a, i64 b, i64 &out) {   // false = no value
         case 10: out = (a & b); return true;
         case 11: out = a + b; return true;
         case 12: out = a - b; return true;
-        case 13: if (mag(a) > 0x7FFFFFFFull || mag(b) > 0x7FFFFFFFull) g_unsupported = true; out = a * b; return true;
+        case 13: if (mag(a) > 0x3FFu || mag(b) > 0x3FFu) g_unsupported = true; out = a * b; return true;
         case 15: if (b == 0) return false; out = a % b; return true;
         case 16: {
-            if (b < 0 || b > 8 || mag(a) > 127 || (a == 0 && b == 0)) { g_unsupported = true; out = 0; return true; }
-            i64 v = 1; i64 i = 0; while (i < b) { v = v * a; ++i; } out = v; return true;
+            if (b < 0 || b > 4 || mag(a) > 31u || (a == 0 && b == 0)) { g_unsupported = true; out = 0; return true; }
+            i32 v = 1; i32 i = 0; while (i < b) { v = v * a; ++i; } out = v; return true;
         }
         default: g_unsupported = true; out = 0; return true;      // real division is not part of the integer fragment
     }
 }
 extern "C" bool fn_arith(const TC *self, QE *l, QE *r, unsigned char op) {
-    i64 out = 0; bool ok = arith(op, l->Value.Number.Integer, r->Value.Number.Integer, out);
-    l->Value.Number.Integer = out; l->Type = ET::IntegerNumber;
+    i32 out = 0; bool ok = arith(op, (i32)l->Value.Number.Integer, (i32)r->Value.Number.Integer, out);
+    l->Value.Number.Integer = (i64)out; l->Type = ET::IntegerNumber;
     g_calls = g_calls + 1;
     return ok;
 }
-struct DV { i64 v; bool ok; };
+struct DV { i32 v; i32 ok; };     // no padding: ll2c widens the i24 padding copy to a 4-byte load (spurious out-of-bounds)
 static DV climb_doc(const unsigned *ops, const DV *prim, unsigned n, unsigned &i, unsigned min_level) {
     DV lhs = prim[i];
     while (i + 1 < n && doc_level(ops[i]) >= min_level) {
         unsigned op = ops[i]; i = i + 1;
         DV rhs = climb_doc(ops, prim, n, i, doc_level(op) + 1);
-        i64 out = 0; bool ok = arith(op, lhs.v, rhs.v, out);
-        lhs.ok = lhs.ok && rhs.ok && ok; lhs.v = out;
+        i32 out = 0; bool ok = arith(op, lhs.v, rhs.v, out);
+        lhs.ok = (lhs.ok != 0 && rhs.ok != 0 && ok) ? 1 : 0; lhs.v = out;
     }
     return lhs;
 }
@@ -189,11 +192,11 @@ extern "C" void h_doc() {
     g_calls = 0; g_unsupported = false;
     bool ok = tc.evaluate(result, expr, OP::NoOp);
     DV tp[K];
-    for (unsigned i = 0; i < K; i++) { tp[i].v = (i64)top_val[i]; tp[i].ok = true; }
+    for (unsigned i = 0; i < K; i++) { tp[i].v = (i32)top_val[i]; tp[i].ok = 1; }
     unsigned ti = 0; DV want = climb_doc(top_op, tp, K, ti, 0);
     vf_assume(!g_unsupported);
-    vf_assert(ok == want.ok, 1);
-    if (ok) vf_assert(result.Value.Number.Integer == want.v, 2);
+    vf_assert(ok == (want.ok != 0), 1);
+    if (ok) vf_assert(result.Value.Number.Integer == (i64)want.v, 2);
     vf_witness();
 }
 
